@@ -178,26 +178,74 @@ class QI:
         return any(QI.has_q(x) for x in e)
 
 
-def qf_script(o):
-    """stage-2 script for obligation o: hypotheses weakened, goal negation strengthened-equivalent"""
+def _apps(e, names, out):
+    if isinstance(e, list) and e:
+        if isinstance(e[0], str) and e[0].strip("|") in names and len(e) > 1:
+            out.append(e)
+        for x in e:
+            _apps(x, names, out)
+
+
+def qf_script(o, unfold_depth=3):
+    """stage-2 script for obligation o: hypotheses weakened (universals instantiated at ground constants, recursive
+    spec functions replaced by uninterpreted functions with finitely many unfoldings), negated goal skolemised"""
     consts = {k: list(v) for k, v in o.consts.items()}
     qi = QI(consts)
     g = qi.neg(sx_parse(o.goal))
     hyps = []
     pre = []
+    recdefs = {}
     for line in o.prelude:
-        if line.startswith("(assert "):
-            try:
-                e = sx_parse(line)
-                if QI.has_q(e[1]):
-                    hyps.append(qi.pos(e[1]))
-                    continue
-            except ValueError:
-                pass
-        pre.append(line)
+        chunks = [line]
+        if "define-fun-rec" in line:
+            # split a multi-definition text block into top-level s-expressions
+            chunks = []
+            depth, cur = 0, ""
+            for ch in line:
+                cur += ch
+                if ch == "(":
+                    depth += 1
+                elif ch == ")":
+                    depth -= 1
+                    if depth == 0:
+                        chunks.append(cur.strip())
+                        cur = ""
+        for ln in chunks:
+            if ln.startswith("(define-fun-rec"):
+                e = sx_parse(ln)
+                name, params, ret, body = e[1], e[2], e[3], e[4]
+                recdefs[name.strip("|")] = (params, ret, body)
+                pre.append(f"(declare-fun {name} ({' '.join(sx_show(p[1]) for p in params)}) {sx_show(ret)})")
+                continue
+            if ln.startswith("(assert "):
+                try:
+                    e = sx_parse(ln)
+                    if QI.has_q(e[1]):
+                        hyps.append(qi.pos(e[1]))
+                        continue
+                except ValueError:
+                    pass
+            pre.append(ln)
     for p in o.pc:
         hyps.append(qi.pos(sx_parse(p)))
-    # second round so that skolems introduced by later hypotheses reach earlier universals
+    if recdefs:
+        seen, frontier = set(), []
+        for h in hyps + [g]:
+            _apps(h, recdefs, frontier)
+        for _ in range(unfold_depth):
+            nxt = []
+            for app in frontier:
+                key = sx_show(app)
+                if key in seen or QI.has_q(app):
+                    continue
+                seen.add(key)
+                params, ret, body = recdefs[app[0].strip("|")]
+                inst = body
+                for (pn, _), a in zip(params, app[1:]):
+                    inst = sx_subst(inst, pn, a)
+                hyps.append(["=", app, inst])
+                _apps(inst, recdefs, nxt)
+            frontier = nxt
     out = list(pre)
     for sk, sort in qi.sk:
         out.append(f"(declare-const {sk} {sx_show(sort)})")
